@@ -293,6 +293,11 @@ impl FObs for i32 { fn fobs(&self) -> String { fobs(self, &[("dw_i32", dw_i32 as
 impl FObs for bool { fn fobs(&self) -> String { fobs(self, &[("dw_bool", dw_bool as fn() -> bool)]) } }
 impl FObs for usize { fn fobs(&self) -> String { fobs(self, &[("dw_usize", dw_usize as fn() -> usize)]) } }
 impl FObs for u16 { fn fobs(&self) -> String { fobs(self, &[]) } }
+impl FObs for std::rc::Rc<u8> { fn fobs(&self) -> String { fobs(self, &[]) } }
+impl FObs for std::cell::Cell<u8> { fn fobs(&self) -> String { fobs(self, &[]) } }
+impl FObs for () { fn fobs(&self) -> String { "d".to_string() } }
+impl FObs for [u8; 3] { fn fobs(&self) -> String { fobs(self, &[]) } }
+impl FObs for (u8, bool) { fn fobs(&self) -> String { fobs(self, &[]) } }
 impl FObs for i64 { fn fobs(&self) -> String { fobs(self, &[]) } }
 impl FObs for char { fn fobs(&self) -> String { fobs(self, &[]) } }
 impl<T: FObs + Default + PartialEq + std::fmt::Debug> FObs for Option<T> { fn fobs(&self) -> String { fobs(self, &[]) } }
@@ -410,7 +415,7 @@ class CorpusCrate:
             mods_src, arms, ranges = [], [], []
             line = MAIN_TMPL[:MAIN_TMPL.index("%(mods)s")].count("\n") + 1 + self.crate_attrs.count("\n") + (1 if self.crate_attrs else 0)
             for k in ks:
-                src = "pub mod m%d {\n#![allow(dead_code, unused_imports, unused_variables, unused_mut, non_camel_case_types, non_snake_case, unreachable_patterns, unused_parens)]\nuse super::hp::*;\n%s\n}\n" % (k, self.mods[k])
+                src = "pub mod m%d {\n#![allow(dead_code, unused_imports, unused_variables, unused_mut, non_camel_case_types, non_snake_case, unreachable_patterns, unused_parens, deprecated)]\nuse super::hp::*;\n%s\n}\n" % (k, self.mods[k])
                 n = src.count("\n")
                 ranges.append((line, line + n - 1, k))
                 line += n
